@@ -717,7 +717,7 @@ func ruleFrameStepOrder(p *Prog, r *Out) {
 				switch p.calleeOf(c) {
 				case "fasthttpResponseHeaders":
 					enc = i
-				case "(*serverConn).write":
+				case "(*serverConn).write", "(*serverConn).writeHeaderBlock":
 					if wr < 0 {
 						wr = i
 					}
